@@ -3,6 +3,7 @@
 from __future__ import annotations
 
 from abc import abstractmethod
+from dataclasses import replace
 from pathlib import Path
 from typing import TYPE_CHECKING, Any, Dict, List, Literal, Optional
 
@@ -693,6 +694,10 @@ class _SynodicMapDynamicsService(_MapDynamicsServiceBase):
                         "direction": direction}
 
             self.generator.update_config(**updates)
+            if direction is None and self.generator._get_config().direction is not None:
+                # update_config() skips None values: without this, "no direction filter"
+                # silently inherits the direction of the previous compute() call.
+                self.generator._set_config(replace(self.generator._get_config(), direction=None))
             result = self.generator.generate(self.source, options)
             payload = SynodicMapDomainPayload._from_mapping(
                 {
